@@ -256,7 +256,10 @@ theorem expr_var (f : Nat) (x : String) (st : St Ω) :
       | none =>
         if x == "nil" then some ([.nil], st) else if x == "true" then some ([.bool true], st)
         else if x == "false" then some ([.bool false], st)
-        else (W.global x).map fun v => ([v], st) := rfl
+        else
+          match W.global x with
+          | some v => some ([v], st)
+          | none => (W.readVar x st.w).map fun v => ([v], st) := rfl
 theorem expr_str (f : Nat) (s : String) (st : St Ω) : evalExpr W (f + 1) (.str s) st = some ([.str s], st) := rfl
 theorem expr_int (f : Nat) (n : Nat) (st : St Ω) : evalExpr W (f + 1) (.int n) st = some ([.int n], st) := rfl
 theorem expr_and (f : Nat) (a b : Expr) (st : St Ω) :
